@@ -134,8 +134,13 @@ def build_case(sd):
     other = {"o": "v", "v": "o", "g": "o"}[space]
     opool = [get_symbols(c)[0] for c in {"o": "ijk", "v": "abc"}[other][:2]]
     for _ in range(rng.randint(0, 2)):
-        kind = rng.choice(["R1", "R2", "f", "t"])
-        if kind == "R1":
+        kind = rng.choice(["R1", "R2", "f", "t", "Rinv", "den"])
+        if kind == "Rinv":       # an index of the pool on an object with negative exponent
+            fac.append(NonSymmetricTensor("r", (rng.choice(pool),)) ** rng.choice([-1, -1, -2]))
+        elif kind == "den":      # ... or in an orbital-energy denominator
+            fac.append((NonSymmetricTensor("e", (rng.choice(pool),))
+                        + NonSymmetricTensor("e", (rng.choice(pool + opool),))) ** -1)
+        elif kind == "R1":
             fac.append(NonSymmetricTensor("r", (rng.choice(pool),)))
         elif kind == "R2":
             fac.append(NonSymmetricTensor("c", (rng.choice(pool), rng.choice(pool + opool))))
